@@ -1,0 +1,88 @@
+//! Verification hooks (only compiled with the cargo feature `verif_hooks`).
+//!
+//! This module is not part of the public API of `flexi_logger`. It exists so that an external
+//! verification harness can
+//!
+//! * replace the wall clock that the file writer and [`DeferredNow`](crate::DeferredNow) consult
+//!   (virtual time), and the lookup of a file's creation time,
+//! * observe, fail, delay or abort at named points that sit directly before file-system effects.
+//!
+//! Without an installed handler every function in here is inert:
+//! [`VLocal::now`] returns `chrono::Local::now()`, [`creation_time`] returns `None`,
+//! and [`point`] returns `Ok(())`.
+use chrono::{DateTime, Local};
+use std::{
+    path::Path,
+    sync::{Arc, RwLock},
+};
+
+/// Implemented by the verification harness.
+pub trait Handler: Send + Sync {
+    /// Virtual time, or `None` to use the real clock.
+    fn now(&self) -> Option<DateTime<Local>>;
+
+    /// Virtual creation time of the given file, or `None` to use the file's metadata.
+    fn creation_time(&self, path: &Path) -> Option<DateTime<Local>>;
+
+    /// Called at a named point, directly before the file-system effect of that name.
+    ///
+    /// Returning an error makes the call site behave as if the file-system call had failed
+    /// with this error (at call sites that can fail); the handler may also block, yield,
+    /// or abort the process.
+    ///
+    /// # Errors
+    ///
+    /// Whatever the harness wants to inject.
+    fn point(&self, name: &'static str, path: Option<&Path>) -> std::io::Result<()>;
+}
+
+static HANDLER: RwLock<Option<Arc<dyn Handler>>> = RwLock::new(None);
+
+fn handler() -> Option<Arc<dyn Handler>> {
+    match HANDLER.read() {
+        Ok(guard) => guard.as_ref().map(Arc::clone),
+        Err(poisoned) => poisoned.into_inner().as_ref().map(Arc::clone),
+    }
+}
+
+/// Installs (or with `None` removes) the handler.
+pub fn set_handler(h: Option<Arc<dyn Handler>>) {
+    match HANDLER.write() {
+        Ok(mut guard) => *guard = h,
+        Err(poisoned) => *poisoned.into_inner() = h,
+    }
+}
+
+/// Stand-in for `chrono::Local` in `Local::now()` calls.
+pub struct VLocal;
+impl VLocal {
+    /// Handler time if a handler is installed and provides one, else `chrono::Local::now()`.
+    #[must_use]
+    pub fn now() -> DateTime<Local> {
+        handler().and_then(|h| h.now()).unwrap_or_else(Local::now)
+    }
+}
+
+/// Virtual creation time of a file, if the handler provides one.
+#[must_use]
+pub fn creation_time(path: &Path) -> Option<DateTime<Local>> {
+    handler().and_then(|h| h.creation_time(path))
+}
+
+/// A named point directly before a file-system effect.
+///
+/// # Errors
+///
+/// The error that the handler wants to inject at this point.
+pub fn point(name: &'static str, path: Option<&Path>) -> std::io::Result<()> {
+    match handler() {
+        Some(h) => h.point(name, path),
+        None => Ok(()),
+    }
+}
+
+/// Gives the harness access to the (otherwise crate-private) setter of the error channel,
+/// so that it can redirect the error channel also for writers that are not built by a `Logger`.
+pub fn set_error_channel(channel: crate::ErrorChannel) {
+    crate::util::set_error_channel(channel);
+}
